@@ -57,7 +57,11 @@ ValidZone(zh, zm) ==
 ZoneSec(zh, zm) == zh * 3600 + zm * 60
 
 \* ---- time points -------------------------------------------------------------------------
+\* (years beyond +-5 000 000 have day numbers outside TLC's 32-bit integers: no driver generates them, and a
+\*  value that carries one - e.g. digits mis-read by a broken parser - is rejected as invalid instead of evaluated)
+YearInModel(y) == y >= -5000000 /\ y <= 5000000
 ValidDate(m, p) ==
+  IF ~YearInModel(p.y) THEN FALSE ELSE
   CASE p.rep = "cal"  -> ValidCal(m, p.y, p.a, p.b)
     [] p.rep = "ord"  -> ValidOrd(m, p.y, p.a)
     [] p.rep = "week" -> ValidWeek(m, p.y, p.a, p.b)
